@@ -213,6 +213,24 @@ def judge(history, res, canon):
     return None
 
 
+def attribute(history, j, canon):
+    """When several assignments/mutations precede a leak, find by experiment which one
+    leaks: keep one at a time.  Returns the list of (bucket, message) that fail alone,
+    or [j] if no single one does (an interaction) or there is nothing to separate."""
+    if j is None or ":leak:" not in j[0]:
+        return [j] if j is not None else []
+    muts = [i for i, e in enumerate(history) if e[0] in ("assign", "mutate")]
+    if len(muts) < 2:
+        return [j]
+    out = []
+    hs = [[e for k, e in enumerate(history) if k == i or k not in muts] for i in muts]
+    for h, r in zip(hs, run(hs, 2)):
+        jj = judge(h, r, canon)
+        if jj is not None and jj not in out:
+            out.append(jj)
+    return out or [(j[0] + ":combined", j[1])]
+
+
 def run(histories, par):
     return H.run_parallel(lambda h: H.run_history(h, final="c10"), histories, par)
 
@@ -234,16 +252,16 @@ def classes(h):
 def sweep(ctx, histories, canon, par):
     for h, r in zip(histories, run(histories, par)):
         ctx.case(tuple(H.ev_key(e) for e in h), nontrivial=nontrivial(h), sample=[H.ev_key(e) for e in h], cls=classes(h))
-        j = judge(h, r, canon)
-        if j is not None and not ctx.skip_bucket(j[0]):
-            ctx.violation(j[0], j[1], {"kind": "history", "events": shrink(h, j[0], canon)})
+        for j in attribute(h, judge(h, r, canon), canon):
+            if not ctx.skip_bucket(j[0]):
+                ctx.violation(j[0], j[1], {"kind": "history", "events": shrink(h, j[0], canon)})
 
 
 def shrink(h, bucket, canon):
     def fails(s):
         s = fixup(s)
-        j = judge(s, run([s], 1)[0], canon)
-        return j is not None and j[0] == bucket
+        js = attribute(s, judge(s, run([s], 1)[0], canon), canon)
+        return any(j[0] == bucket for j in js)
     return fixup(H.ddmin(h, fails))
 
 
@@ -294,10 +312,12 @@ def task_random(ctx, n, max_len):
     def fn(c, h):
         r = run([h], 1)[0]
         c.case(tuple(H.ev_key(e) for e in h), nontrivial=nontrivial(h), sample=[H.ev_key(e) for e in h], cls=classes(h))
-        j = judge(h, r, canon)
-        if j is not None:
-            raise Violation(j[0], j[1], {"kind": "history", "events": h})
-    ctx.search("random", strat, fn, n)
+        for j in attribute(h, judge(h, r, canon), canon):
+            if not c.skip_bucket(j[0]):
+                raise Violation(j[0], j[1], {"kind": "history", "events": h})
+    # histories cost a fork each: Hypothesis' shrinker is replaced by delta debugging on the event list
+    ctx.search("random", strat, fn, n, shrink=False,
+               post_shrink=lambda b, case: {"kind": "history", "events": shrink(case["events"], b, canon)})
 
 
 def tasks(tier):
@@ -306,7 +326,7 @@ def tasks(tier):
              ("family-mutate-0", task_family, dict(which="mutate", par=2, full=False, shard=0, nshards=2)),
              ("family-mutate-1", task_family, dict(which="mutate", par=2, full=False, shard=1, nshards=2))]
         for k in range(10):
-            t.append(("random-%d" % k, task_random, dict(n=16, max_len=12)))
+            t.append(("random-%d" % k, task_random, dict(n=30, max_len=12)))
         return t
     t = []
     for k in range(3):
@@ -322,6 +342,6 @@ def replay(ctx, case):
     h = case["events"]
     r = run([h], 1)[0]
     ctx.case(tuple(H.ev_key(e) for e in h), nontrivial=nontrivial(h))
-    j = judge(h, r, canon)
-    if j is not None:
-        raise Violation(j[0], j[1], case)
+    for j in attribute(h, judge(h, r, canon), canon):
+        if not ctx.skip_bucket(j[0]):
+            raise Violation(j[0], j[1], case)
